@@ -533,5 +533,6 @@ pub fn c12(tier: &str, seed: u64) -> Check {
         &["shuttle explores the Relaxed flag as SeqCst; the flag is monotone (true→false only), workers only read it to stop early and the result is loaded after scope() joined every worker", "order-0 digraphs (only obtainable through filter_vertices) are outside"],
         json!({"max_order": if thorough {5} else {4}, "family_orders": if thorough { json!(FT) } else { json!(FQ) }}),
     );
-    Check { spaces, report, post: None }
+    let tier2 = tier.to_string();
+    Check { spaces, report, post: Some(Box::new(move |ctx| crate::props::conf::run_sched("C12", &tier2, ctx))) }
 }
